@@ -260,8 +260,30 @@ class TypeGen:
         r.shuffle(alts)
         return a, ["AnyOf", alts], "index-split"
 
+    def index_key_pair(self, names):
+        """index signatures whose key types differ: a template-literal pattern ({[k: `${number}`]: V}) against `string` keys with
+        another value type, against declared properties matching the pattern, nested and inside unions, in both directions"""
+        r = self.r
+        base = [["String"], ["Number"], ["Boolean"], lit_s("x"), lit_n(1)]
+        pat = ["Tpl", [["number"]]]          # `${number}`: the engine compares single-item patterns only
+        v1, v2 = r.sample(base, 2)
+        if r.random() < 0.3: v2 = ["AnyOf", [v1, v2]]
+        req = r.random() < 0.8
+        fin = ["Object", [], [pat, [req, v1]]]
+        wide = ["Object", [], [["String"], [req, v2]]]
+        shape = r.randrange(6)
+        if shape == 0: a, b = fin, wide
+        elif shape == 1: a, b = ["Object", [["12", [True, v1]]], [["String"], [True, v2]]], fin
+        elif shape == 2: a, b = fin, ["Object", [["12", [False, v1]]], [["String"], [True, v2]]]
+        elif shape == 3: a, b = ["Array", fin], ["Array", wide]
+        elif shape == 4: a, b = ["AnyOf", [fin, ["Null"]]], ["AnyOf", [wide, ["Null"]]]
+        else: a, b = ["Object", [["p", [True, fin]]], None], ["Object", [["p", [True, wide]]], None]
+        if r.random() < 0.3: a, b = b, a
+        return a, b, "index-keys"
+
     def pair(self, names):
         r = self.r
+        if r.random() < 0.05: return self.index_key_pair(names)
         if r.random() < 0.12: return self.split_pair(names)
         if r.random() < 0.05: return self.index_split_pair(names)
         if r.random() < 0.06: return self.literal_cover_pair(names)
